@@ -1,6 +1,6 @@
 (* Entry points of the extracted model: one number per model function. *)
 From Coq Require Import ZArith List.
-From Tdda Require Import Base.Sexp RefTest.Argv RefTest.Tagged Serial.DateFmt RefTest.CheckStrings RefTest.Artefacts RefTest.Regen Constraints.Model Constraints.Detect Constraints.Serialise Constraints.Cli.
+From Tdda Require Import Base.Sexp RefTest.Argv RefTest.Tagged Serial.DateFmt RefTest.CheckStrings RefTest.Artefacts RefTest.Regen Constraints.Model Constraints.Detect Constraints.Serialise Constraints.Cli Rexpy.Coverage.
 Import ListNotations.
 Open Scope Z_scope.
 
@@ -19,5 +19,7 @@ Definition dispatch (n : Z) (s : sexp) : sexp :=
   | 11 => detect_entry s
   | 12 => serialise_entry s
   | 13 => cli_entry s
+  | 14 => coverage_entry s
+  | 15 => terminate_entry s
   | _ => L [A (-1)]
   end.
